@@ -204,6 +204,31 @@ CHECKS.update({
         technique="TLA+ definitional operators evaluated by TLC on recorded I/O of both implementations"),
 })
 
+CHECKS.update({
+    "C06": dict(
+        category="exploration", design_ref="DESIGN.md 4 C06, 5",
+        text="A history of honest runs with fixed inputs (200 per input assignment in quick, 1000 thorough; n=2..4, observed party "
+             "as garbler and as evaluator) is judged by Mon_C06 from the transcript alone: for every input wire of the observed party "
+             "the broadcast masked bit XOR the mask shares the others sent it (= input XOR own share) must be balanced for input 0 "
+             "and input 1 alike (5 sigma), no two (party, run) may share a global key (probe) and no two canary runs the same "
+             "own-mask vector; 128 random canary input bits must not appear as the broadcast vector, its complement or a bit/byte "
+             "pattern in the party's traffic.",
+        note="Possibilistic/first-order only: the monitor cannot decide uniformity; a subtly biased or correlated generator passes. "
+             "The global key is read through a probe hook.",
+        technique="TLC trace monitor over a multi-run history of real executions (statistical counters evaluated in TLA+)"),
+    "C07": dict(
+        category="exploration", design_ref="DESIGN.md 4 C07, 5",
+        text="For honest runs (n=2..4, every evaluator, circuits with NOT gates) and for runs with one deviation of Adversary.tla "
+             "that the run may survive (all deviations an honest party cannot check directly, a sample of the others) the harness "
+             "decodes every 128-bit field of the whole transcript (incl. the MACs inside the aShare decommitments); Mon_C07 checks "
+             "for every honest party still in the run that its probed global key is no field, no XOR of two fields (three fields: "
+             "thorough, one small configuration) and occurs at no byte offset of any message in either byte order.",
+        note="Opaque byte strings (OT matrix, base-OT points, row ciphertexts) are scanned only as raw bytes for the key itself. A "
+             "party that aborted on a protocol check is not judged (its key dies with the run). The symbolic secrecy model of "
+             "DESIGN 2.1 (Gf2/Wrk17) was not built; this is a transcript scan.",
+        technique="TLC trace monitor (XOR-closure scan of the decoded transcript against probed keys) over real honest and adversarial runs"),
+})
+
 NA = {}
 
 
